@@ -25,12 +25,45 @@ def instances(rng, tier, n_uni, per_uni):
             except Exception:  # noqa: BLE001
                 continue
             yield u, desc, ctx, obj
+    yield from score_instances(rng, max(4, n_uni // 6))
+
+
+# a universe in which the score of bind_best_dataclass decides: two compound choices whose classes
+# share their local names but not their types ({"x": 5} binds to A with x="5" (str, weight 1) and to
+# B with x=5 (weight 1.5)); A.x only takes strings that B rejects
+SCORE_DESC = {"classes": [
+    {"name": "A", "fields": [
+        {"name": "x", "type": "str", "metadata": {"type": "Element"}},
+        {"name": "y", "type": {"opt": "bool"}, "metadata": {"type": "Attribute"}, "default": {"value": None}}]},
+    {"name": "B", "fields": [
+        {"name": "x", "type": "int", "metadata": {"type": "Element"}},
+        {"name": "y", "type": {"opt": "bool"}, "metadata": {"type": "Attribute"}, "default": {"value": None}}]},
+    {"name": "Root", "fields": [
+        {"name": "e", "type": {"list": "object"}, "metadata": {"type": "Elements", "choices": [
+            {"name": "a", "type": {"cls": "A"}}, {"name": "b", "type": {"cls": "B"}}]}, "default": {"factory": "list"}},
+        {"name": "n", "type": {"opt": "int"}, "metadata": {"type": "Attribute"}, "default": {"value": None}}]},
+]}
+
+
+def score_instances(rng, n):
+    u = B.Universe(SCORE_DESC)
+    _UNIS[u.modname] = u
+    ctx = D.export_ctx(u)
+    for _ in range(n):
+        items = []
+        for _ in range(rng.randint(1, 3)):
+            y = rng.choice([None, True, False])
+            if rng.random() < 0.5:
+                items.append(u.classes["A"](x=rng.choice(["hello", "x y", "", "é", "1x", "tru"]), y=y))
+            else:
+                items.append(u.classes["B"](x=G.rint(rng), y=y))
+        yield u, SCORE_DESC, ctx, u.classes["Root"](e=items, n=rng.choice([None, 3]))
 
 
 def value_and_target(rng, u, obj):
     """a single model or a list-of-models document"""
     if rng.random() < 0.25:
-        objs = [obj] + [G.gen_instance(rng, u, "Root") for _ in range(rng.randint(0, 2))]
+        objs = [obj] + ([G.gen_instance(rng, u, "Root") for _ in range(rng.randint(0, 2))] if u.desc is not SCORE_DESC else [obj])
         return {"list": [u.to_val(o) for o in objs]}, {"list": "Root"}
     return u.to_val(obj), {"cls": "Root"}
 
@@ -145,12 +178,31 @@ CORRS = [
          describe="real encode+decode (dict and JSON text routes) vs model encode+decode"),
 ]
 
-ORACLES = []
-FINDINGS = {}
-TRUSTED = []
-ASSUMPTIONS = []
-LEVEL_TEXT = "pending"
-LEVEL_NOTE = "pending"
+TRUSTED = [
+    "metadata (XmlMeta/XmlVar, dataclass fields, xsi index) is exported from the real XmlContext and is an input of the model "
+    "(builders.py is not modelled here); the contexts of the counterexample / non-vacuity theorems are printed from the same export "
+    "(harness/c04_witness.py -> Proofs/C04Witness.lean)",
+    "primitives restricted to str / int / bool (+ QName in the executable model); floats, decimals, dates, enums, bytes are outside this layer",
+    "json.dump / json.load are a parameter of the model (JsonLib); the JSON text route is tied to the real library only by the ops with route=json",
+    "hand model of DictEncoder / DictDecoder / find_type_by_fields / local_names_match / score_object; set iteration order is modelled as "
+    "the set of admissible winners and the correspondence checks membership",
+]
+ASSUMPTIONS = [
+    "json.load(json.dump(j)) = j for JSON-native j (J.native: only null/bool/int/str/array/object with pairwise distinct keys)",
+    "XmlVar.wrapper is recovered from wrapper_qname (wrapper names without '}')",
+    "AnyElement / DerivedElement metadata is exported like a user class and added to the context under the ids AnyElement / DerivedElement",
+]
+LEVEL_TEXT = (
+    "Lean theorems for all class universes / instances of the typed fragment valOKj (str/int/bool, model-class, list and wrapped-list "
+    "fields, both dictionary factories, every parser config): dict_rt, list_rt, json_rt, encode_json_native, best_match_unique; "
+    "the full-strength statement is refuted by five witnesses on real exported contexts (known findings), all replayed on /repo; "
+    "model tied to /repo by dict.enc / dict.dec / dict.roundtrip on generated universes incl. wildcard, compound, attributes, tokens, "
+    "wrapper, inheritance, unknown keys and wrong shapes."
+)
+LEVEL_NOTE = (
+    "Outside the proved fragment (executable model + correspondence only): tokens, QName primitives, attributes maps, wildcards, "
+    "compound fields, unions, detect-type (clazz=None), ignore_default_attributes. Untyped (anyType) primitive fields are outside the property."
+)
 
 
 # ------------------------------------------------------------------ oracle
